@@ -155,6 +155,10 @@ type AxiomSpec struct {
 	Line    int
 }
 
+// specUsesIdx: some contract uses the index marker idx(j) in a trigger; the
+// executor then marks every slice index it evaluates (see markIndex).
+var specUsesIdx bool
+
 type SpecDB struct {
 	Funcs   map[string]*FuncSpec
 	Views   map[string]*FuncSpec // "<viewing pkg>|<func key>": a client package's assumed view
@@ -244,6 +248,9 @@ func extractDirectives(path string) ([]rawDirective, string, error) {
 		}
 		if topKeywords[first] || subKeywords[first] {
 			out = append(out, rawDirective{kw: first, text: strings.TrimSpace(body[len(first):]), line: i + 1})
+			if strings.Contains(body, "idx(") {
+				specUsesIdx = true
+			}
 		} else {
 			if len(out) == 0 {
 				return nil, "", fmt.Errorf("%s:%d: continuation line without a directive", path, i+1)
